@@ -39,15 +39,16 @@ func c02Judge(c *mon.Ctx, a, b *exact.Shape, family string, closedA bool, cfgs [
 		}
 	})
 	if scaled {
-		sc := libScales[int(uint64(hashShape(mon.NewH(), b))%uint64(len(libScales)))]
+		enc := allEncs[int(uint64(hashShape(mon.NewH(), b))%uint64(len(allEncs)))]
+		sc := enc.Name
 		c.Try(func() {
 			ic := cfgs[len(cfgs)-1]
-			la, lb := buildLibScaled(a, ic, closedA, sc), buildLibScaled(b, ic, !closedA, sc)
+			la, lb := buildLibEnc(a, ic, closedA, enc), buildLibEnc(b, ic, !closedA, enc)
 			ab, ba := gIntersects(la, lb), gIntersects(lb, la)
 			c.Eval()
 			c.Count("scaled_pairs")
 			if ab != want || ba != want {
-				c.Violation("intersects-scaled", fmt.Sprintf("%s/%s with every coordinate multiplied by %g: A.Intersects(B)=%v B.Intersects(A)=%v, exact=%v", a.Kind, b.Kind, sc, ab, ba, want),
+				c.Violation("intersects-scaled", fmt.Sprintf("%s/%s under the exact encoding %s: A.Intersects(B)=%v B.Intersects(A)=%v, exact=%v", a.Kind, b.Kind, sc, ab, ba, want),
 					pairCase(a, b, map[string]interface{}{"family": family, "index": ic.String(), "closed_a": closedA, "scale": sc, "a_intersects_b": ab, "b_intersects_a": ba, "want": want}))
 			}
 		})
